@@ -209,6 +209,12 @@ class SpecRun:
                 ob['trace'] = compact_trace(r['trace'])
             res['obligations'].append(ob)
         res['nloops_expected'] = int(opts.get('loops', '0'))
+        # a call the extracted code makes to a function that has no definition in this translation unit (a container-model operation the
+        # model does not provide): CBMC's results for the harness say nothing about the real code -> no verdict, never a violation
+        undefined = sorted({o['property'].split('.')[0] for o in res['obligations'] if o['status'] == 'FAILURE' and 'undefined function should be unreachable' in o['description']})
+        if undefined:
+            res['status'] = 'model-gap'
+            res['detail'] = 'the extracted code reaches %s, which the container model does not define; the harness result is discarded' % ', '.join(undefined)
         return res
 
     def tag_of(self, line, file):
@@ -236,6 +242,9 @@ def compact_trace(trace):
         elif st.get('stepType') == 'failure':
             out.append(['!failure', st.get('reason', ''), st.get('property', '')])
     return out[-4000:]
+
+
+LOOP_CONTRACT_RE = re.compile(r'\.loop_(invariant_base|invariant_step|assigns|decreases|step_unwinding)\.')
 
 
 def classify(ob):
@@ -331,6 +340,9 @@ def run_check(pid, tier, seed):
                 if defs:
                     o['define'] = ','.join([d for d in opts.get('define', '').split(',') if d] + defs)
                 jobs.append((sr, name, o, label))
+    only = os.environ.get('VERIF_ONLY_HARNESS')      # development: run the matching back end A harnesses only (evidence goes to the scratch file)
+    if only:
+        jobs = [j for j in jobs if re.search(only, j[1])]
     results = []
     # admission by memory: a harness declares mem_gb (default 2); the sum of running harnesses stays below the budget
     budget = [MEM_BUDGET_GB]
@@ -365,8 +377,9 @@ def run_check(pid, tier, seed):
     bres = []
     try:
         import emit_smt
-        bres, bnv = emit_smt.run_property(pid, tier, work, NCPU)
-        no_verdict += bnv
+        if not only:
+            bres, bnv = emit_smt.run_property(pid, tier, work, NCPU)
+            no_verdict += bnv
     except ImportError:
         pass
     return finish(pid, tier, seed, t0, runs, results, bres, no_verdict)
@@ -377,6 +390,7 @@ def finish(pid, tier, seed, t0, runs, results, bres, no_verdict):
     table = []          # per-obligation rows
     failing = {}        # obligation name -> first failing ob
     n_oblig = n_ok = 0
+    misfit = set()      # (spec, harness, case) whose loop contracts failed
     for r in results:
         if r['status'] != 'ok':
             no_verdict.append('%s/%s %s: %s %s' % (r['spec'], r['harness'], r.get('case', ''), r['status'], r.get('detail', '')[:500]))
@@ -388,6 +402,11 @@ def finish(pid, tier, seed, t0, runs, results, bres, no_verdict):
         steps = {o['property'] for o in r['obligations'] if 'loop_invariant_step' in o['property'] or 'loop invariant is preserved' in o['description'].lower() or 'invariant after step' in o['description'].lower()}
         if r.get('nloops_expected') and len(steps) < r['nloops_expected']:
             no_verdict.append('%s/%s: only %d loop-invariant step obligations for %d loops (loop contract dropped?)' % (r['spec'], r['harness'], len(steps), r['nloops_expected']))
+        # a failed loop-contract obligation (invariant base / step, loop frame, variant) means the loop contract no longer fits the loop
+        # of this tree; what CBMC reports for the rest of the harness is then relative to an invariant that is not one
+        if any(o['status'] == 'FAILURE' and LOOP_CONTRACT_RE.search(o['property']) for o in r['obligations']):
+            misfit.add((r['spec'], r['harness'], r.get('case', '')))
+        undecided = 0
         for o in r['obligations']:
             kind = classify(o)
             if kind == 'canary':
@@ -396,11 +415,18 @@ def finish(pid, tier, seed, t0, runs, results, bres, no_verdict):
             name = obligation_name(o)
             if o['status'] == 'SUCCESS':
                 n_ok += 1
+            elif o['status'] != 'FAILURE':
+                # CBMC leaves properties UNKNOWN when its decision procedure stops before deciding them (solver error after the first
+                # failures, resource limit): undecided, never counted as failed
+                undecided += 1
             elif kind == 'model':
                 no_verdict.append('%s/%s: model obligation failed: %s' % (r['spec'], r['harness'], o['description']))
             else:
                 o['case'] = r.get('case', '')
                 failing.setdefault(name, o)
+        if undecided:
+            misfit.add((r['spec'], r['harness'], r.get('case', '')))      # an incomplete run of the harness: its failures are arbitrated like those of a misfit
+            no_verdict.append('%s/%s %s: cbmc left %d obligation(s) undecided (status UNKNOWN)' % (r['spec'], r['harness'], r.get('case', ''), undecided))
         table.append({'spec': r['spec'], 'harness': r['harness'], 'case': r.get('case', ''), 'backend': 'A:cbmc-dfcc',
                       'solver': r['opts'].get('solver') or 'cadical (or the spec-level @@option solver)', 'seconds': round(r['seconds'], 2),
                       'obligations': sum(1 for o in r['obligations'] if classify(o) != 'canary'),
@@ -454,14 +480,21 @@ def finish(pid, tier, seed, t0, runs, results, bres, no_verdict):
     replay_paths = []
     # proof steps (lemmas, algebraic certificates) are not statements of the property: when only proof steps are refuted, the native
     # replay arbitrates - a failing input makes it a violation, otherwise the proof has to be adapted to the new code (no verdict)
-    def is_proof_step(nm):
-        return 'lemma.' in nm or nm.startswith('lemma') or '.certificate_' in nm
-    if fresh and all(is_proof_step(nm) for nm, _ in fresh):
+    # The same holds for back end A when a loop contract of the harness fails (the inductive invariant written for the pinned loop does not
+    # fit the loop of this tree): every failure of that harness is then relative to a non-invariant, and the native replay arbitrates.
+    def is_proof_step(nm, o=None):
+        if 'lemma.' in nm or nm.startswith('lemma') or '.certificate_' in nm:
+            return True
+        return bool(o) and (o.get('spec'), o.get('harness'), o.get('case', '')) in misfit
+    if fresh and misfit:
+        outside = [nm for nm, o in fresh if not is_proof_step(nm, o)]
+        log('[%s] loop contract misfit or incomplete run in %s; %d failing obligation(s), %d of them outside those harnesses%s' % (pid, sorted(misfit), len(fresh), len(outside), (': ' + '; '.join(outside[:3])) if outside else ''))
+    if fresh and all(is_proof_step(nm, o) for nm, o in fresh):
         import replay as rp
         os.makedirs(os.path.join(VERIF, 'replays', pid), exist_ok=True)
         path0, found0 = rp.make_replay(pid, fresh[0][0], fresh[0][1], seed, native=True)
         if not found0:
-            no_verdict.append('%d proof step(s) (lemmas / certificates) are refuted on this tree, e.g. %s, but no obligation stating the property is, and the native replay finds no failing input: the proof has to be adapted (replay file %s)' % (len(fresh), fresh[0][0], path0))
+            no_verdict.append('%d proof step(s) (lemmas / certificates / obligations of a harness whose loop contract no longer fits the loop) fail on this tree, e.g. %s, but no obligation stating the property outside them does, and the native replay finds no failing input: the proof has to be adapted (replay file %s)' % (len(fresh), fresh[0][0], path0))
             fresh = []
     if fresh:
         import replay as rp
@@ -530,7 +563,7 @@ def write_evidence(pid, tier, seed, wall, runs, table, n_oblig, n_ok, known_hit,
         'wall_s': round(wall, 2),
         'violations': len(fresh),
     }
-    if os.path.realpath(front.REPO) != '/repo' or os.environ.get('VERIF_WORK_SUFFIX'):
+    if os.path.realpath(front.REPO) != '/repo' or os.environ.get('VERIF_WORK_SUFFIX') or os.environ.get('VERIF_ONLY_HARNESS'):
         # development runs against a scratch worktree (VERIF_REPO=...) never overwrite the evidence of /repo
         json.dump(ev, open(os.path.join(VERIF, '.work', pid + os.environ.get('VERIF_WORK_SUFFIX', ''), 'evidence.scratch.json'), 'w'), indent=1)
         return
